@@ -255,6 +255,10 @@ impl Expression for ExpressionIndex {
             (Err(err), _) => Err(err),
             (_, Err(err)) => Err(err),
             (Ok(left_value), Ok(index_value)) => {
+                if Arc::ptr_eq(&left_value.arc, &index_value.arc) {
+                    // "v[v]": locking the container and then the identical index value would dead-lock.
+                    return Err("A value can't be used as its own index".to_string());
+                }
                 let mut data_ref = left_value.lock().unwrap();
                 let data = data_ref.deref_mut();
                 match data {
